@@ -26,27 +26,32 @@ func GetOnosConfigID() topoapi.ID {
 func AddDeleteChildren(index configapi.Index, changeValues map[string]*configapi.PathValue, configStore map[string]*configapi.PathValue) map[string]*configapi.PathValue {
 	// defining new changeValues map, where we will include old changeValues map and new pathValues to be cascading deleted
 	var updChangeValues = make(map[string]*configapi.PathValue)
+	// the deletes of a request take effect before its updates
 	for _, changeValue := range changeValues {
 		// if this pathValue has to be deleted, then we need to search for all children of this pathValue
 		if changeValue.Deleted {
 			for _, value := range configStore {
-				if isChildPath(value.Path, changeValue.Path) {
+				if IsChildPath(value.Path, changeValue.Path) {
 					updChangeValues[value.Path] = value
 					updChangeValues[value.Path].Index = index
 					updChangeValues[value.Path].Deleted = true
 				}
 			}
-			// overwriting itself in the store, we want the latest value (changeValue variable)
+			// overwriting existing pathValue in the store
 			updChangeValues[changeValue.Path] = changeValue
-		} else {
+		}
+	}
+	for _, changeValue := range changeValues {
+		if !changeValue.Deleted {
+			// if this pathValue has to be updated, then we are overwriting it
 			updChangeValues[changeValue.Path] = changeValue
 		}
 	}
 	return updChangeValues
 }
 
-// isChildPath reports whether path lies beneath parent at a path element boundary
-func isChildPath(path string, parent string) bool {
+// IsChildPath reports whether path lies beneath parent at a path element boundary
+func IsChildPath(path string, parent string) bool {
 	return len(path) > len(parent) && strings.HasPrefix(path, parent) &&
 		(path[len(parent)] == '/' || path[len(parent)] == '[')
 }
